@@ -90,6 +90,7 @@ def run(prog, chk):
         "where scripts are registered explicitly, the languages registered under a tag are exactly those the feature file declares for that tag, default ['dflt'] (R20.2)",
         "the scripts / glyph classifications a writer registers are computed for the font of the current call: no per-font state or memoised result on the writer object (R20.3, shared with C08)",
         "kerning is only registered under scripts the font is known to support: code points are classified by extensions & (knownScripts | DFLT), v2 registers subsets of knownScripts (R20.4)",
+        "getScriptLanguageSystems files every declared language under the statement's own OT script tag and pairs each tag with the list stored under it (R20.5)",
     ]
     chk.not_decided += ["which scripts a given font ends up with in the compiled ScriptList"]
     writers = default_writers(prog)
@@ -130,6 +131,7 @@ def run(prog, chk):
     from . import c08
     chk.guard(c08.r087, prog, chk, "R20.3")
     chk.guard(r204, prog, chk)
+    chk.guard(r205, prog, chk)
 
 
 def feature_tags(prog, w: ClassInfo) -> Set[str]:
@@ -276,7 +278,52 @@ def r204(prog, chk):
     chk.minimum("R20.4", 6)
 
 
+
+# ----------------------------------------------------------------------------- R20.5
+def r205(prog, chk):
+    """getScriptLanguageSystems pairs every OT script tag with the languages declared under that very tag: the list that
+    receives a statement's language is the one stored under the statement's own script tag, and the (tag, languages)
+    tuples it returns pair a key with its own value."""
+    ix = prog.ix
+    f = ix.get_func("ufo2ft.featureWriters.ast:getScriptLanguageSystems")
+    apps = [c for c in A.body_nodes(f.node) if isinstance(c, ast.Call) and isinstance(c.func, ast.Attribute) and c.func.attr in ("append", "add")
+            and c.args and isinstance(c.args[0], ast.Attribute) and c.args[0].attr == "language"]
+    need(apps, f"cannot interpret {f.short}: languages are not collected")
+    tables = set()
+    for c in apps:
+        stmt_obj = T(c.args[0].value)
+
+        def keyed_by_own_tag(e, ff, _o=stmt_obj):
+            if isinstance(e, ast.Call) and A.callee_name(e) == "setdefault" and e.args and T(e.args[0]) == f"{_o}.script":
+                tables.add(T(e.func.value))
+                return True
+            if isinstance(e, ast.Subscript) and T(e.slice) == f"{_o}.script":
+                tables.add(T(e.value))
+                return True
+            return False
+        ok, bad = every_origin(prog, f, c.func.value, keyed_by_own_tag, allow_const=False)
+        chk.ob("R20.5", f"{f.short}|{A.keytext(f.node, c)}|a statement's language is filed under the statement's own script tag", ok, where(f, c), detail=T(c, 70),
+               message=f"{f.short}: `{T(c, 60)}` files the language under something else than `{stmt_obj}.script` (sibling tags of one script such as dev2 / deva then share "
+                       f"their languages: lookups get registered under languagesystems that were never declared)")
+    tups = [t for t in A.body_nodes(f.node) if isinstance(t, ast.Tuple) and len(t.elts) == 2 and isinstance(ix.parent(t), ast.Call) and A.callee_name(ix.parent(t)) == "append"]
+    need(tups, f"cannot interpret {f.short}: (tag, languages) tuples")
+    for t in tups:
+        k, v = t.elts
+        ok = False
+        loops = [a for a in ix.ancestors(t) if isinstance(a, ast.For)]
+        if loops and isinstance(k, ast.Name) and isinstance(v, ast.Name) and A.target_names(loops[0].target) == [k.id, v.id] \
+                and isinstance(loops[0].iter, ast.Call) and A.callee_name(loops[0].iter) == "items" and T(loops[0].iter.func.value) in tables:
+            ok = True
+        if isinstance(v, ast.Subscript) and T(v.slice) == T(k) and T(v.value) in tables:
+            ok = True
+        chk.ob("R20.5", f"{f.short}|{A.keytext(f.node, t)}|a tag is paired with the languages stored under it", ok, where(f, t), detail=T(t),
+               message=f"{f.short}: the tuple `{T(t)}` does not pair a script tag with the language list collected under that tag")
+    chk.minimum("R20.5", 2)
+
+
 MUTANTS = [
+    M("languages collected per Unicode script instead of per OT tag (seeded C20e)", "ufo2ft/featureWriters/ast.py", "getScriptLanguageSystems",
+      "languagesByScript.setdefault(ls.script, []).append(ls.language)", "languagesByScript.setdefault(unicodedata.ot_tag_to_script(ls.script), []).append(ls.language)", rule="R20.5"),
     M("code points fall back to their own Script property when no extension is a known script (seeded C20d)", "ufo2ft/featureWriters/kernFeatureWriter.py", "KernFeatureWriter.knownScriptsPerCodepoint",
       "return script_extension & (self.context.knownScripts | DFLT_SCRIPTS)", "scripts = script_extension & (self.context.knownScripts | DFLT_SCRIPTS)\nif not scripts:\n    scripts = {unicodedata.script(chr(uv))}\nreturn scripts", rule="R20.4"),
     M("declared languages filed per Unicode script and looked up through a per-script sub-table (seeded C05d)", "ufo2ft/featureWriters/kernFeatureWriter.py", "KernFeatureWriter._registerLookups",
